@@ -34,12 +34,17 @@ FIXED = [
  ("C12", "e0310b0", "write of a 2-entry database then of a 1-entry database to db on the in-memory store: no truncation, read returned the new value followed by the old tail, Getdb failed to parse"),
  ("C13", "0b385e3", "SignedData whose signed attributes lack the contentType attribute: Verify panicked in Attributes.Marshal (cryptobyte BytesOrPanic: invalid OID)"),
  ("C04", "0b385e3", "valid blob with the contentType attribute removed: Verify panicked instead of returning a negative result or error"),
+ ("C13", "5d3600e", "4 KiB image declaring SizeOfHeaders 0xffffffff (or a huge section size): PECOFFBinary.Bytes() preallocated its buffer by the header-declared section sizes, 4 GiB allocated"),
  ("C18", "f437fe9", "BootOrder with 64 entries read through the legacy efi.GetBootOrder: the loop bound data.Len() shrank while reading, only the first 32 names were returned"),
  ("C05", "44b99d3", "SignPKCS7 with a content type OID whose encoding is longer than ~13 bytes: signed attributes not in DER SET OF order (contentType after signingTime needed), go.mozilla.org/pkcs7 rejected the signature"),
 ]
 
 # genuine defects recorded rather than repaired: status "known"
 KNOWN = [
+ {"status": "known", "property": "C13", "id": "C13-debug-pe-readrelocs",
+  "match": {"outcome": "alloc", "alloc_site": "debug/pe.readRelocs"},
+  "what": "authenticode.Parse hands the image to debug/pe.NewFile, which allocates NumberOfRelocations x 10 bytes per section header before looking at the file size: a 64 KiB image with 1000 section headers each declaring 6000 relocations makes Parse allocate ~140 MB (allocation site debug/pe.readRelocs). Not small to repair inside go-uefi (needs an own header pre-validation or a replacement of debug/pe); matched by allocation site only.",
+  "example": "replays/known/C13-debug-pe-readrelocs.json"},
 ]
 
 def main():
